@@ -49,7 +49,7 @@ def profile(tier):
                     "phase_shift": 3, "target": 4, "eom": 5, "add_dmm": 3, "detmap": 2,
                     "slm": 2, "measure": 2},
         "device": dev,
-        "register": st.one_of(gen.register_specs(n=(1, 5)), gen.register_specs(n=(1, 5), int_ids=True),
+        "register": st.one_of(gen.register_specs(n=(1, 5)), gen.register_specs(n=(1, 5), int_ids=2),
                               gen.register_specs(n=(2, 5), mappable=True, dim=2)),
     }
 
@@ -63,8 +63,17 @@ def _has_ikw(x):
 
 
 @st.composite
-def cases(draw, tier, unexportable=False):
+def cases(draw, tier, unexportable=False, eom=False):
     prof = profile(tier)
+    if eom:
+        # EOM-heavy programs (enable / modify / pulses / disable, with and without drift correction):
+        # what the corrections do internally must not leak into what is exported
+        prof = dict(prof, min_ops=6, max_ops=20,
+                    weights={"declare": 6, "declare_more": 1, "add": 6, "align": 1, "delay": 2,
+                             "phase_shift": 1, "target": 1, "eom": 14, "measure": 1},
+                    device=gen.device_specs(n_channels=(1, 2), allow_builtin=False, allow_dmm=False,
+                                            chan_kw={"kind": "Rydberg", "eom": True, "bandwidth": [8, 40]}),
+                    register=gen.register_specs(n=(1, 3)))
     if unexportable:
         # interpolated waveforms with scipy's interp1d and its keyword arguments have no form in
         # the published schema: the abstract encoder may refuse them, it must not export
@@ -305,6 +314,9 @@ CLAUSES = [
     Clause("roundtrip", check, gen=lambda t: cases(t),
            budget={"quick": (16, 80), "thorough": (16, 3000)},
            doc="abstract repr + legacy codec: schema, round trip, parametrized builds"),
+    Clause("roundtrip_eom", check, gen=lambda t: cases(t, eom=True),
+           budget={"quick": (16, 40), "thorough": (16, 1500)},
+           doc="the same for EOM-heavy programs (drift-corrected enable / modify / disable / pulses)"),
     Clause("unexportable", check, gen=lambda t: cases(t, unexportable=True),
            budget={"quick": (16, 40), "thorough": (16, 600)},
            doc="programs with interp1d waveforms (no schema form): the abstract encoder refuses, or "
